@@ -504,7 +504,19 @@ URLS = [("ws://localhost:9000", "localhost", 9000, "/"),
         ("ws://EXAMPLE.com:65535/?", "example.com", 65535, "/"),
         ("ws://a-b.example.co.uk:81//double", "a-b.example.co.uk", 81, "//double"),
         ("ws://example.com/?redirect=http://evil/&after=1", "example.com", 80,
-         "/?redirect=http://evil/&after=1")]
+         "/?redirect=http://evil/&after=1"),
+        # explicit ports: the own default, the OTHER scheme's default, neighbours of both
+        ("ws://example.com:80/", "example.com", 80, "/"),
+        ("ws://example.com:443/", "example.com", 443, "/"),
+        ("wss://example.com:443/", "example.com", 443, "/"),
+        ("wss://example.com:80/x", "example.com", 80, "/x"),
+        ("ws://[::1]:443/", "::1", 443, "/"),
+        ("wss://[2001:db8::1]:80/", "2001:db8::1", 80, "/"),
+        ("wss://[2001:db8::1]/", "2001:db8::1", 443, "/"),
+        ("ws://example.com:79/", "example.com", 79, "/"),
+        ("ws://example.com:81/", "example.com", 81, "/"),
+        ("wss://example.com:444/", "example.com", 444, "/"),
+        ("wss://example.com:8443/", "example.com", 8443, "/")]
 
 
 def _job_urls(a, env):
